@@ -841,6 +841,29 @@ func TestVerifC06(t *testing.T) {
 		st.Emit(fmt.Sprintf("fenc %d %s", tp, it), out)
 		g.stats.Inc("fenc")
 	}
+	// long-header encoder: the Lean encoder of `quic_header_walk_roundtrip` produces the bytes of the
+	// independent Go encoder (first byte as protected on the wire)
+	for i := 0; i < 40*scale; i++ {
+		version := []uint32{c06QuicV1, c06QuicV1, c06QuicV2}[g.r.Intn(3)]
+		pk := &c06QuicPacket{Version: version, Dcid: g.bytes([]int{0, 1, 8, 8, 20}[g.r.Intn(5)]), Scid: g.bytes([]int{0, 0, 8, 20}[g.r.Intn(4)]),
+			PnLen: g.r.Range(1, 4), LenSz: []int{0, 2, 4, 8}[g.r.Intn(4)], TokLenSz: []int{0, 0, 2, 4}[g.r.Intn(4)], Payload: g.bytes(g.r.Range(20, 1300))}
+		if version == c06QuicV2 {
+			pk.TypeBits = 1
+		}
+		if g.r.Chance(0.3) {
+			pk.Token = g.bytes(g.r.Range(1, 300))
+		}
+		raw := pk.Seal()
+		hdr := raw[:pk.PnOffset]
+		tokAt := 7 + len(pk.Dcid) + len(pk.Scid)
+		kTok := int(hdr[tokAt] >> 6)
+		lenAt := tokAt + (1 << uint(kTok)) + len(pk.Token)
+		kLen := int(hdr[lenAt] >> 6)
+		ln := pk.PnLen + len(pk.Payload) + 16
+		st.Emit(fmt.Sprintf("henc %d %s %s %s %s %d %d %d", hdr[0], c06Hex(hdr[1:5]), c06Hex(pk.Dcid), c06Hex(pk.Scid), c06Hex(pk.Token), kTok, kLen, ln),
+			fmt.Sprintf("bytes=%s walk=%d/%d/%s", c06Hex(hdr), pk.PnOffset, pk.PnOffset+ln, c06Hex(pk.Dcid)))
+		g.stats.Inc("henc")
+	}
 	for i := 0; i < 40*scale; i++ {
 		b := g.bytes(g.r.Range(0, 40))
 		if g.r.Bool() && len(b) > 5 {
